@@ -12,7 +12,7 @@ THEOREMS = ["Mesa.Cells." + t for t in (
     "C07_connect_spec", "C07_connect_2d_is_nd", "C07_connect_symm", "C07_grid_connections", "C07_grid_cells",
     "C07_grid_symmetric", "C07_network_connections", "C07_voronoi_connections_partial", "C07_nbhd_spec",
     "C07_reach_is_path", "C07_cache_transparent", "C07_cache_transparent_from", "C07_connections_are_dicts",
-    "C07_connect_disconnect_spec", "C07_cache_transparent_under_edits")]
+    "C07_connect_disconnect_spec", "C07_cache_transparent_under_edits", "C07_memo_keys_generated")]
 COUNTS = {"quick": 1200, "thorough": 30000}
 TRUSTED = [
     "Python dict semantics (insertion order, update keeps the position of existing keys, pop) modelled as duplicate-free lists",
